@@ -34,7 +34,11 @@ class RecordingParser(ArgumentParser):
 
 
 sys.path.insert(0, os.path.dirname(os.path.abspath(__file__)))
-from c12_program import program_src  # noqa: E402
+from c12_program import helper_src, program_src  # noqa: E402
+
+with open(os.path.join(SCRATCH, "jvhelp.py"), "w") as _f:
+    _f.write(helper_src())
+import jvhelp  # noqa: E402
 
 
 def raw_text(r):
@@ -96,9 +100,19 @@ def run_case(case, idx):
     PHASE["parsing"] = False
     classes = tuple(v for v in vars(mod).values() if isinstance(v, type) and v.__name__ != "Point")
     err = io.StringIO()
+    implicit = bool(case["components"].get("implicit"))
+    del jvhelp.LOG[:]
     try:
         with contextlib.redirect_stderr(err), contextlib.redirect_stdout(io.StringIO()):
-            ret = jsonargparse.auto_cli(mod.COMPONENTS, args=argv, as_positional=case["as_pos"], parser_class=RecordingParser)
+            if implicit:
+                # auto_cli() without `components`, called by code that belongs to the program's module (compiled under
+                # the module's file name, run in the module's globals): the components are what the module defines
+                env = {"_jv_cli": jsonargparse.auto_cli, "_jv_kw": dict(args=argv, as_positional=case["as_pos"], parser_class=RecordingParser)}
+                mod.__dict__.update(env)
+                exec(compile("_jv_ret = _jv_cli(**_jv_kw)", mod.__file__, "exec"), mod.__dict__)
+                ret = mod.__dict__["_jv_ret"]
+            else:
+                ret = jsonargparse.auto_cli(mod.COMPONENTS, args=argv, as_positional=case["as_pos"], parser_class=RecordingParser)
     except SystemExit as e:
         if e.code == 2:
             return {"err": "parse", "detail": (err.getvalue().strip().splitlines() or [""])[-1][:200], "argv": argv}
@@ -116,7 +130,7 @@ def run_case(case, idx):
         r = ["instance"]
     else:
         r = ["other", repr(ret)[:80]]
-    return {"ok": {"log": mod.LOG, "ret": r}, "argv": argv}
+    return {"ok": {"log": list(mod.LOG), "ret": r}, "argv": argv}
 
 
 def main():
